@@ -347,7 +347,7 @@ func c12Shape(t *rapid.T, L int) Loc {
 }
 
 func c12Gen(t *rapid.T) c12Case {
-	L := rapid.IntRange(4, 20).Draw(t, "L")
+	L := drawLen(t, 4, 20, "L")
 	mode := rapid.IntRange(0, 3).Draw(t, "mode")
 	if mode == 3 {
 		// program mode on deliberately shared classes (nested, overlapping, apart): restoration is not claimed there,
@@ -426,6 +426,10 @@ func TestC12(t *testing.T) {
 	st := newStats("C12")
 	defer st.flush()
 	rapidPart(t, c12Prop, st, "rapid", pick(30000, 200000), c12Gen)
+	if t.Failed() {
+		return
+	}
+	rapidLargePart(t, c12Prop, st, pick(1500, 20000), c12Gen)
 	if t.Failed() {
 		return
 	}
